@@ -321,7 +321,7 @@ fn execute(atoms: &Atoms, cfg: &Cfg, scn: &Scenario, cas: &std::path::Path, pref
                     } else {
                         cas
                     };
-                    let r = std::panic::AssertUnwindSafe(run_session(atoms, spec, cas, pool.clone(), &store2, explore, record, scn.family == "inject-conc" || scn.family == "inject-conc4", scn.family == "inject-persist", prefix, budget, obs_ref)).catch_unwind().await;
+                    let r = std::panic::AssertUnwindSafe(run_session(atoms, spec, cas, pool.clone(), &store2, explore, record, scn.family == "inject-conc" || scn.family == "inject-conc4" || scn.family == "inject-conc2r", scn.family == "inject-persist", prefix, budget, obs_ref)).catch_unwind().await;
                     if let Err(p) = r {
                         obs_ref.panic = Some(format!("{} @ {}", vcore::util::panic_text(&p), vcore::util::last_panic_loc()));
                         break;
@@ -786,6 +786,9 @@ fn scenarios(tier: Tier) -> Vec<Scenario> {
     // a finish that has to cut the session aggregate while the only upload permit is held by a pending mid-file
     // upload, and a file without any new chunk (empty) finishing in that window
     v.push(conc(vec![f(&[0, 1, 2], 0), f(&[3, 4], 0), f(&[], 0)]));
+    // two cleaners that both have to register a xorb while the only permit is held: the first file cuts twice, the
+    // second once (run with injected failures under the one-permit configuration only)
+    v.push(Scenario { family: "inject-conc2r".into(), sessions: vec![SessionSpec::seq(vec![f(&[0, 1, 2, 3, 4], 0), f(&[5, 6, 7], 0)])] });
     // four one-chunk files: with one chunk per xorb and one permit (I6) a finish waits for a permit in the middle of
     // the session-level cut while other files complete
     v.push(Scenario { family: "inject-conc4".into(), sessions: vec![SessionSpec::seq(vec![f(&[0], 0), f(&[1], 0), f(&[2], 0), f(&[3], 0)])] });
@@ -1028,6 +1031,10 @@ fn main() {
                 }
                 // configuration I6 and the four-file scenario belong together, and to the fault-free interleaving checks
                 if (cfg.name.starts_with("I6")) != (scn.family == "inject-conc4") || (scn.family == "inject-conc4" && !fault_free) {
+                    continue;
+                }
+                // the two-registrations scenario: C16 only, one-permit configuration only
+                if scn.family == "inject-conc2r" && (prop != "C16" || cfg.name != "I1-uploads1") {
                     continue;
                 }
                 // C14x judges successful sessions only, so it needs no injected failure (and no persisting driver)
